@@ -44,6 +44,7 @@ type scenEnv struct {
 	closed      bool
 	expectClose bool // a safe close of a completed connection was requested while the transport was open
 	left        int  // data-writer calls left before the transport turns closed; -1 = never
+	ncb         int  // HandleConnectionClosed calls so far
 }
 
 func (s *scenEnv) add(o string) {
@@ -117,6 +118,9 @@ func (i *fakeInfo) IsRemoteServiceForSKIPaired(string) bool {
 func (i *fakeInfo) IsAutoAcceptEnabled() bool { i.s.add("OAutoQ " + vh.B(i.s.auto)); return i.s.auto }
 func (i *fakeInfo) HandleConnectionClosed(c api.ShipConnectionInterface, completed bool) {
 	i.s.add("OClosedCb " + vh.B(completed))
+	i.s.mu.Lock()
+	i.s.ncb++
+	i.s.mu.Unlock()
 }
 func (i *fakeInfo) ReportServiceShipID(ski string, id string) { i.s.add("OShipId " + vh.HxS(id)) }
 func (i *fakeInfo) AllowWaitingForTrust(string) bool {
@@ -520,10 +524,12 @@ func perform(c *ship.ShipConnection, env *scenEnv, e *event) (outcome string) {
 		time.Sleep(1250 * time.Millisecond)
 		// under load a pending goroutine may be late: if the connection rests in abort-done /
 		// remote-abort-done, or a safe close was announced, its close is pending - wait for it
+		// (the end of the connection is reported by that goroutine, or was reported before: the
+		// transport being closed already, by the peer, says nothing about the goroutine)
 		st := c.VerifSnapshot().State
-		for i := 0; i < 500 && (st == 15 || st == 16 || env.expectClose); i++ {
+		for i := 0; i < 450 && (st == 15 || st == 16 || env.expectClose); i++ {
 			env.mu.Lock()
-			cl := env.closed
+			cl := env.ncb > 0
 			env.mu.Unlock()
 			if cl {
 				break
@@ -792,6 +798,10 @@ func main() {
 		os.Exit(2)
 	}
 	runtime.GOMAXPROCS(runtime.NumCPU())
+	if *prop == "closerace" {
+		mainCloseRace(*seed, *n, *out)
+		return
+	}
 	if *prop == "pair" {
 		mainPair(*seed, *n, *out, *parallel)
 		return
